@@ -51,6 +51,27 @@ pub unsafe extern "C" fn haystack_filter_parse(val: *const c_char) -> Option<Box
     }
 }
 
+/// Destructs and free a [Filter](crate::filter::Filter) returned by [haystack_filter_parse]
+/// # Arguments
+/// filter The Haystack filter.
+/// # Example
+/// ```rust
+/// # use crate::libhaystack::filter::Filter;
+/// # use crate::libhaystack::c_api::filter::*;
+/// # unsafe {
+/// let str = std::ffi::CString::new("site and dis==\"Test\"").unwrap();
+/// let filter = haystack_filter_parse(str.as_ptr());
+/// # let filter = Box::<Filter>::into_raw(filter.unwrap());
+/// haystack_filter_destroy(filter);
+/// # }
+/// ```
+/// # Safety
+/// Panics on invalid input data
+#[no_mangle]
+pub unsafe extern "C" fn haystack_filter_destroy(filter: *mut Filter) {
+    _ = Box::from_raw(filter);
+}
+
 /// Uses a [Filter](crate::filter::Filter) to match against a [Dict](crate::val::Dict)
 /// [Value](crate::val::Value).
 /// # Arguments
